@@ -525,6 +525,16 @@ def prepare (a : Alloc) (pid vaddr gpu : Nat) : Except String (Page × Nat × Al
       | none => .error "nopage"
       | some a2 => .ok (pg', old.paddr, a2)
 
+/-- `MemoryAllocator.ReleasePhysicalPage(pAddr)`: `addSinglePAddr` on the device whose range holds the frame
+    (`deviceIDByPAddr` panics when no device does); the frame is appended to that device's free list -/
+def Alloc.release (a : Alloc) (paddr : Nat) : Except String Alloc :=
+  match a.deviceOf paddr with
+  | none => .error "nodevice"
+  | some d =>
+    match a.free[d]? with
+    | none => .error "nilderef"
+    | some f => .ok { a with free := setNth a.free d (f ++ [paddr]) }
+
 /-- `allocatePages` for one page after another (`Allocate(pid, bytes, dev)`) -/
 def Alloc.allocate (a : Alloc) (pid dev : Nat) : Nat → Except String Alloc
   | 0 => .ok a
